@@ -2,7 +2,8 @@
    parameterised by the SDK flavour and the language interpreter. *)
 From Coq Require Import List Bool Arith NArith.
 From Coq Require Import Strings.Byte Strings.String.
-From Minidyn Require Import Base.Str Base.FMap Base.Outcome Model.Value Model.Key Model.Index Model.Table Model.Token Gen.Tables.
+From Minidyn Require Import Base.Str Base.FMap Base.Outcome Model.Value Model.Key Model.Index Model.Table Model.Token Gen.Tables
+  Model.Lexer Model.Parser Model.Object Model.Eval.
 Import ListNotations.
 
 Definition tbl := Table.table.
@@ -127,13 +128,31 @@ Definition trim (s : str) : str := rev (trim_left (rev (trim_left s))).
 
 Definition opt_str (o : option str) : str := match o with Some s => s | None => [] end.
 
+(* the tokens of an expression, as PlaceholdersIn / ReservedWordIn of token.go walk them *)
+Definition tokens_of (s : str) : list token := lex_all (S (List.length s)) s.
+
+(* a #name used in the expressions that ExpressionAttributeNames does not define (fix 1740da6) *)
+Definition undefined_name_in (g : str) (names : list str) : bool :=
+  existsb (fun t => tt_beq (ty t) IDENT && match lit t with c :: _ => Byte.eqb c "#"%byte | [] => false end &&
+                    negb (mem_str (lit t) names)) (tokens_of g).
+
+(* a reserved word in a bare-name position: an identifier token that is not followed by "(" (fix fb4521f) *)
+Fixpoint reserved_in_tokens (l : list token) : bool :=
+  match l with
+  | a :: ((b :: _) as rest) =>
+      (tt_beq (ty a) IDENT && negb (tt_beq (ty b) LPAREN) && is_reserved (lit a)) || reserved_in_tokens rest
+  | _ => false
+  end.
+Definition reserved_word_in (e : str) : bool := reserved_in_tokens (tokens_of e).
+
 Definition validate_expr_attrs (names : list str) (vals : list str) (exprs : list str) : bool :=
   let g := trim (join (bs " ") exprs) in
   match g, names, vals with
   | [], [], [] => true
   | _, _, _ =>
       forallb (fun n => contains_sub g n) names && forallb (placeholder_ok "#"%byte) names &&
-      forallb (fun n => contains_sub g n) vals && forallb (placeholder_ok ":"%byte) vals
+      forallb (fun n => contains_sub g n) vals && forallb (placeholder_ok ":"%byte) vals &&
+      negb (undefined_name_in g names) && negb (existsb reserved_word_in exprs)
   end.
 
 Section Step.
@@ -303,7 +322,11 @@ Definition put_item (c : client) (table : str) (it : item) (cond : option str) (
   | inr t =>
       match t_put lang_match (ctx_of c) t it cond names vals with
       | (t', WOk _ f) => (set_table c t', ok_obs PNone f)
-      | (_, WCondFailed _ f) => (c, {| o_res := RErr CondFailed; o_pay := PNone; o_fired := f |})
+      | (_, WCondFailed old f) =>
+          (* the harness always asks for ReturnValuesOnConditionCheckFailure = ALL_OLD on PutItem / DeleteItem (fix 1b96490) *)
+          (c, {| o_res := RErr CondFailed;
+                 o_pay := match flavour with V2 => PCondItem (out_item V2 old) | V1 => PNone end;
+                 o_fired := f |})
       | (_, WErr e) => (c, err_obs e)
       | (_, WPanic p) => (c, panic_obs p)
       | (_, WFuel) => (c, fuel_obs)
@@ -356,35 +379,58 @@ Definition delete_item (c : client) (table : str) (key : item) (cond : option st
                         | None, V1 => PNone         (* the v1 mapper keeps a nil map nil *)
                         end
                    else PNone) f)
-      | (_, WCondFailed _ f) => (c, {| o_res := RErr CondFailed; o_pay := PNone; o_fired := f |})
+      | (_, WCondFailed old f) =>
+          (* the harness always asks for ReturnValuesOnConditionCheckFailure = ALL_OLD on PutItem / DeleteItem (fix 1b96490) *)
+          (c, {| o_res := RErr CondFailed;
+                 o_pay := match flavour with V2 => PCondItem (out_item V2 old) | V1 => PNone end;
+                 o_fired := f |})
       | (_, WErr e) => (c, err_obs e)
       | (_, WPanic p) => (c, panic_obs p)
       | (_, WFuel) => (c, fuel_obs)
       end
   end.
 
+(* Table.checkExpressions (fix 4eb734b): the key condition and the filter are parsed before the search, so a malformed
+   expression is rejected even when no item is evaluated.  The parse-only call of the interpreter is the call with the
+   probe alias table, which no validated request can carry (its key is the empty string). *)
+Definition probe_names : fmap str := [([], [])].
+
+Definition check_expr (e : str) : outcome unit :=
+  match e with
+  | [] => Ok Datatypes.tt
+  | _ => match lang_match e [] [] probe_names with
+         | Ok _ => Ok Datatypes.tt
+         | Err er => lang_panic er
+         | Panic p => Panic p
+         | OutOfFuel => OutOfFuel
+         end
+  end.
+
+Definition check_expressions (c : client) (q : query) : outcome unit :=
+  if c_native c then Ok Datatypes.tt else obind (check_expr (q_keycond q)) (fun _ => check_expr (q_filter q)).
+
 Definition run_search (c : client) (t : tbl) (q : query) : client * obs :=
+  let go (q' : query) : client * obs :=
+    match check_expressions c q with
+    | Err e => (c, err_obs e)
+    | Panic p => (c, panic_obs p)
+    | OutOfFuel => (c, fuel_obs)
+    | Ok _ =>
+        match search_data lang_match (ctx_of c) t q' with
+        | Ok (items, lek, f) =>
+            (c, ok_obs (PItems (map (out_item flavour) items) (List.length items) (out_item flavour lek)) f)
+        | Err e => (c, err_obs e)
+        | Panic p => (c, panic_obs p)
+        | OutOfFuel => (c, fuel_obs)
+        end
+    end in
   match q_index q with
   | Some n => if negb (mem n (t_indexes t)) && negb (match n with [] => true | _ => false end)
-              then (c, err_obs Validation) else
-      match search_data lang_match (ctx_of c) t
-              {| q_index := match n with [] => None | _ => Some n end; q_values := q_values q; q_names := q_names q;
-                 q_limit := q_limit q; q_esk := q_esk q; q_keycond := q_keycond q; q_filter := q_filter q;
-                 q_cond := q_cond q; q_forward := q_forward q; q_scan := q_scan q |} with
-      | Ok (items, lek, f) =>
-          (c, ok_obs (PItems (map (out_item flavour) items) (List.length items) (out_item flavour lek)) f)
-      | Err e => (c, err_obs e)
-      | Panic p => (c, panic_obs p)
-      | OutOfFuel => (c, fuel_obs)
-      end
-  | None =>
-      match search_data lang_match (ctx_of c) t q with
-      | Ok (items, lek, f) =>
-          (c, ok_obs (PItems (map (out_item flavour) items) (List.length items) (out_item flavour lek)) f)
-      | Err e => (c, err_obs e)
-      | Panic p => (c, panic_obs p)
-      | OutOfFuel => (c, fuel_obs)
-      end
+              then (c, err_obs Validation)
+              else go {| q_index := match n with [] => None | _ => Some n end; q_values := q_values q; q_names := q_names q;
+                         q_limit := q_limit q; q_esk := q_esk q; q_keycond := q_keycond q; q_filter := q_filter q;
+                         q_cond := q_cond q; q_forward := q_forward q; q_scan := q_scan q |}
+  | None => go q
   end.
 
 Definition query_op (c : client) (table : str) (index : option str) (keycond filter : option str)
@@ -501,6 +547,11 @@ Definition batch_get (c : client) (reqs : fmap (list item)) (opts : fmap (fmap s
       match c_failure c with
       | Some f => (c, err_obs (failure_err f))
       | None =>
+          (* the names and the projection of every table entry are validated before any key is read (fix 2aa9a7b) *)
+          if negb (forallb (fun tk : str * list item =>
+                              let '(names, proj) := match lookup (fst tk) opts with Some o => o | None => ([], []) end in
+                              validate_expr_attrs (keys names) [] [proj]) reqs)
+          then (c, err_obs Validation) else
           let per_table (tk : str * list item) :=
             let '(names, proj) := match lookup (fst tk) opts with Some o => o | None => ([], []) end in
             let got := map (fun k => (k, snd (get_item_op c (fst tk) k names proj))) (snd tk) in
